@@ -608,6 +608,106 @@ def run_client_aborts(rep, fsdbh, stats):
     stats["client_abort_cases"] = dict(cases=len(cases), modes=["inline", "grpc"], violations=bad)
 
 
+def sr_oracle(ab, chunks, sizes, results, verdict):
+    """the property's own reading of one run of the upload reader (no model): data in order, a clean end is only reported
+    when the stream ended cleanly and everything was delivered, an abort is never reported as a clean end, every Read with
+    a non-empty buffer makes progress or reports the end"""
+    total, got, out = sum(chunks), 0, []
+    if verdict != "ok":
+        out.append("the data results are not the first bytes of the upload")
+    for n, r in zip(sizes, results):
+        if r.startswith("d"):
+            k = int(r[1:])
+            got += k
+            if k > n:
+                out.append("a Read with a %d-byte buffer returned %d bytes" % (n, k))
+            if n > 0 and k == 0:
+                out.append("a Read with a non-empty buffer returned 0 bytes and no error")
+        elif r == "eof":
+            if ab:
+                out.append("the aborted stream was reported as a clean end (io.EOF) after %d of %d bytes" % (got, total))
+            elif got != total:
+                out.append("io.EOF after %d of %d bytes" % (got, total))
+        elif r == "err":
+            if not ab:
+                out.append("an error although the stream ended cleanly")
+        else:
+            out.append("unexpected result " + r)
+    return out
+
+
+def run_stream_reader(rep, fsdbh, stats):
+    """the server's upload reader (streamreader.Read) against Stream.v: scripted streams (chunk lengths incl. 0, clean end or
+    abort) x sequences of Read buffer lengths (incl. 0); impl vs extracted model, the property oracle on the impl's answers,
+    and a sample re-evaluated by vm_compute"""
+    rng = C.rng_for(rep.seed, "c10-stream")
+    cases = ["s0 1 2,3 3,3,3,0", "s1 1 - 4,4", "s2 1 5 5,1,1", "s3 0 0,0 1,1", "s4 1 0,0 0,1,0", "s5 0 4 0,0,4,0,1", "s6 1 4 2,2,2,2",
+             "s7 1 2048,2048 32768,32768", "s8 0 2048,2048,1 32768,32768"]
+    n = 400 if rep.tier == "quick" else 6000
+    for i in range(n):
+        nch = rng.choice([0, 1, 1, 2, 3, 5, 8])
+        cl = [rng.choice([0, 1, 2, 3, 7, 16, 100, 2048]) for _ in range(nch)]
+        total = sum(cl)
+        style = rng.random()
+        if style < 0.5:                      # a consumer with one buffer length reading past the end
+            b = rng.choice([1, 2, 3, 5, 16, 64, 2048, 32768])
+            sizes = [b] * min(40, total // b + 3)
+        else:
+            sizes = [rng.choice([0, 1, 1, 2, 3, 5, 16, 100, 4096]) for _ in range(rng.randint(1, 12))]
+        cases.append("r%d %d %s %s" % (i, rng.random() < 0.5, ",".join(map(str, cl)) or "-", ",".join(map(str, sizes))))
+    impl = C.run_lines(fsdbh, "sreader", cases)
+    model = C.run_lines(C.DRIVER, "sr", cases)
+    bad, kinds = 0, dict(eof=0, err=0, aborted=0, zero_reads=0)
+    for c, i, m in zip(cases, impl, model):
+        t = c.split()
+        ab, cl, sizes = t[1] == "1", [int(x) for x in t[2].split(",")] if t[2] != "-" else [], [int(x) for x in t[3].split(",")]
+        f = i.split()
+        problems = []
+        if len(f) != 3 or f[0] != t[0]:
+            problems.append("the harness answered %r" % i)
+        else:
+            rs = f[1].split(",") if f[1] != "-" else []
+            kinds["eof"] += "eof" in rs
+            kinds["err"] += "err" in rs
+            kinds["aborted"] += ab
+            kinds["zero_reads"] += 0 in sizes
+            problems += sr_oracle(ab, cl, sizes, rs, f[2])
+        if i != m:
+            problems.append("implementation and model (coq/Stream.v) differ: impl %s, model %s" % (i, m))
+        if problems:
+            bad += 1
+            if bad <= 3:
+                rep.violation(dict(kind="stream-reader", what="upload reader: " + "; ".join(problems[:3]), case=c, impl=i, model=m,
+                                   theorem="C10_grpc_abort_never_stored / C10_grpc_upload_exact (coq/Properties/C10.v)"))
+    # a sample inside Coq
+    sample = [(c, m) for c, m in zip(cases, model) if sum(map(int, c.split()[3].split(","))) < 300 and c.split()[2].count(",") < 6][:40]
+    body = ["From Coq Require Import List NArith.", "From FsDb Require Import Stream.", "Import ListNotations."]
+    for k, (c, m) in enumerate(sample):
+        t = c.split()
+        cl = [int(x) for x in t[2].split(",")] if t[2] != "-" else []
+        off, chunks = 0, []
+        for x in cl:
+            chunks.append("[%s]" % ";".join(str(97 + (off + j) % 26) for j in range(x)))
+            off += x
+        want = []
+        for r in (m.split()[1].split(",") if m.split()[1] != "-" else []):
+            want.append("2" if r == "eof" else "3" if r == "err" else str(10 + int(r[1:])))
+        body.append("Example s%d : map (fun r => match r with SrData d => 10 + length d | SrEof => 2 | SrErr => 3 end) "
+                    "(sr_run (A:=nat) false [%s] %s [%s]) = [%s].\nProof. vm_compute. reflexivity. Qed." % (
+                        k, ";".join(chunks), "true" if t[1] == "1" else "false", t[3].replace(",", ";"), ";".join(want)))
+    import tempfile, shutil
+    d = tempfile.mkdtemp(prefix="verif-c10s-")
+    try:
+        with open(os.path.join(d, "C10Stream.v"), "w") as f:
+            f.write("\n".join(body) + "\n")
+        rc, out = C.sh("timeout 300 coqc -Q %s FsDb C10Stream.v" % C.COQ, cwd=d, timeout=320)
+        if rc != 0:
+            raise C.CheckBroken("extracted stream model and vm_compute disagree (or cases.v does not compile):\n" + out[-3000:])
+    finally:
+        shutil.rmtree(d, ignore_errors=True)
+    stats["stream_reader_cases"] = dict(cases=len(cases), violations=bad, vm_compute_crosschecked=len(sample), **kinds)
+
+
 def run(rep):
     proof_ok = C.proof_step(rep, "C10")
     C.ensure_driver()
@@ -615,6 +715,7 @@ def run(rep):
     stats = {}
     run_inline_faults(rep, fsdbh, stats)
     run_client_aborts(rep, fsdbh, stats)
+    run_stream_reader(rep, fsdbh, stats)
     stats["vm_compute_crosschecked_cases"] = vm_crosscheck(C.rng_for(rep.seed, "c10-vm"), 60 if rep.tier == "quick" else 400)
     rep.coverage.update(stats)
     rep.coverage.update(
@@ -627,7 +728,7 @@ def run(rep):
              "failing roots are repeated until the shuffle visits a chosen chain of failing roots first; "
              "distinct = distinct (script, observed visiting order); non-trivial = a fault fired (the write failed, or a "
              "second root had to be used)",
-        scope="inline client (Set, SetReader, Create+Write*+Close); gRPC abort paths are not covered by this revision",
+        scope="inline client (Set, SetReader, Create+Write*+Close) under write faults; the gRPC server's upload reader (Stream.v) against scripted streams; aborted uploads end to end through both clients",
         refuted_theorems=["C10_success_is_exact_refuted_orig", "C10_continues_on_other_root_refuted_orig"],
         partial_theorems=["C10_success_is_exact_partial_orig", "C10_continues_two_roots_partial_orig"],
         proof_ok=proof_ok)
@@ -642,6 +743,21 @@ def run(rep):
 
 def replay(rep, path):
     p = json.load(open(path))
+    if p.get("kind") == "stream-reader":
+        fsdbh = C.ensure_harness()
+        C.ensure_driver()
+        i = C.run_lines(fsdbh, "sreader", [p["case"]])[0]
+        m = C.run_lines(C.DRIVER, "sr", [p["case"]])[0]
+        t = p["case"].split()
+        print("case  :", p["case"], "  (<id> <aborted> <chunk lengths> <read buffer lengths>)")
+        print("impl  :", i)
+        print("model :", m, "  (coq/Stream.v)")
+        f = i.split()
+        probs = sr_oracle(t[1] == "1", [int(x) for x in t[2].split(",")] if t[2] != "-" else [], [int(x) for x in t[3].split(",")],
+                          f[1].split(",") if len(f) == 3 and f[1] != "-" else [], f[2] if len(f) == 3 else "BAD")
+        for x in probs:
+            print("property:", x)
+        return 1 if (probs or i != m) else 0
     if "case" not in p:
         print(json.dumps(p, indent=1)[:4000])
         print("this replay file names a broken proof/build, not a case: re-run ./check C10")
